@@ -114,6 +114,14 @@ impl<I: SendmsgSyscall> SendmsgSyscall for NioSendmsgSyscall<I> {
                 }
                 let error_kind = Error::last_os_error().kind();
                 if error_kind == ErrorKind::WouldBlock {
+                    if !blocking {
+                        // the caller put the descriptor in non-blocking mode: report the would-block, never wait
+                        std::mem::forget(vec);
+                        if sent > 0 {
+                            r = sent.try_into().expect("sent overflow");
+                        }
+                        return r;
+                    }
                     //wait write event
                     left_time = start_time
                         .saturating_add(send_time_limit(fd))
